@@ -29,6 +29,12 @@ def scratch():
         base = os.environ.get("VERIF_SCRATCH") or tempfile.gettempdir()
         _scratch = tempfile.mkdtemp(prefix="vcheck-", dir=base)
         atexit.register(lambda: shutil.rmtree(_scratch, ignore_errors=True))
+        # everything the check starts (go build, the harness, pp, go test) keeps its temporary
+        # files inside the scratch directory, which is removed on exit
+        t = os.path.join(_scratch, "tmp")
+        os.makedirs(t)
+        os.environ["TMPDIR"] = t
+        GOENV["TMPDIR"] = t
     return _scratch
 
 
@@ -101,7 +107,9 @@ def run_tlc(module, cfg, consts=None, workers=None, timeout=900, extra=None, sim
         shutil.copy(src, os.path.join(d, name))
     meta = os.path.join(scratch(), "meta_" + tag)
     out = os.path.join(scratch(), tag + ".out")
-    cmd = ["java", "-XX:+UseParallelGC", "-Xss512m"]
+    jtmp = os.path.join(scratch(), "jtmp")
+    os.makedirs(jtmp, exist_ok=True)
+    cmd = ["java", "-XX:+UseParallelGC", "-Xss512m", "-Djava.io.tmpdir=" + jtmp]  # TLC leaves a tlc-<n> directory per run
     if heap:
         cmd.append("-Xmx" + heap)
     if deque:
